@@ -338,6 +338,17 @@ def generate():
     mm = re.search(r"HeaderName::from_static\(constants::AUTHORIZATION_HEADER\)\s*,\s*HeaderValue::from_static\(\"([^\"]*)\"\)", fm.group(1) if fm else "", flags=re.S)
     S("response_marker_value", mm.group(1) if mm else "", f)
 
+    # ---- key directory restriction (C12): chown uid/gid and chmod mode of acl_directory ----
+    # TOLERANT: 0 / 65535 sentinel when the call is gone, so that the proof breaks and the check goes on
+    # to find the failing syscall order instead of stopping here.
+    f = "proxy_agent/src/acl/linux_acl.rs"
+    acl = strip_comments(src(f))
+    mm = re.search(r"Permissions::from_mode\(\s*0o([0-7]+)\s*\)", acl)
+    I("c12_acl_mode", int(mm.group(1), 8) if mm else 0, f)
+    mm = re.search(r"chown\(\s*&?\w+\s*,\s*Some\(Uid::from_raw\((\d+)\)\)\s*,\s*Some\(Gid::from_raw\((\d+)\)\)\s*\)", acl)
+    I("c12_acl_uid", int(mm.group(1)) if mm else 65535, f)
+    I("c12_acl_gid", int(mm.group(2)) if mm else 65535, f)
+
     lines = []
     lines.append("(* GENERATED by tools/gen_consts.py from /repo's current sources -- do not edit. *)")
     lines.append("From Coq Require Import List NArith.")
